@@ -37,6 +37,8 @@ package main
 
 import (
 	"fmt"
+	"os"
+	"runtime/debug"
 	"time"
 
 	"verif/mc/lib"
@@ -62,6 +64,7 @@ func configs(thorough bool) []HistCfg {
 
 func main() {
 	c = lib.New("C01", "exploration", 100*time.Second, 25*time.Minute)
+	debug.SetGCPercent(800) // the enumeration allocates many short-lived closures; fewer GC cycles
 	c.Assume("SHA-256 collision resistance; the adversary is restricted to the explicit alteration operators and to hashes occurring in the enumerated worlds")
 	c.Assume("a fork of the history strictly after the client's trusted transaction is undetectable by construction and is counted as legitimate")
 	cfgs := configs(c.Thorough())
@@ -86,9 +89,16 @@ func main() {
 			small = append(small, cf)
 		}
 	}
-	runStore(small, true)
-	runClient()
-	runStore(cfgs, true)
+	part := os.Getenv("C01_PART") // development aid: "client" or "store" runs only that part
+	if part != "client" {
+		runStore(small, true)
+	}
+	if part != "store" {
+		runClient()
+	}
+	if part != "client" {
+		runStore(cfgs, true)
+	}
 	c.Set("accepted_honest", cnt.honestOK)
 	c.Set("rejected", cnt.rejected)
 	c.Set("accepted_legitimately_other_branch_or_future_fork", cnt.legit)
